@@ -44,6 +44,9 @@ REQUIRED_THEOREMS = [
     "parse_most_specific_wins", "unknown_key_ignored", "lowHigh_is_pair", "seq_is_pair", "formats_agree", "lowHigh_incomplete_is_error",
     "seq_wrong_length_is_error", "unspecified_is_error", "unspecified_side_is_error", "auto_periodic_resolves",
     "periodicity_consistent", "parse_periodicity_consistent", "parse_length", "alias_table_classes",
+    # Props/C02b: the complete setter of a grid
+    "boundaryFaces_compatible", "setBoundaries_holds", "setBoundaries_fixed", "setBoundaries_frame",
+    "setBoundaries_order_irrelevant", "setBoundaries_robin", "setBoundaries_exprMixed",
 ]
 RULE = ("ghost leg: seed-derived grids of all classes (1-3 axes, 1-4 cells per axis, dyadic spacings, periodic flags, "
         "holes), field rank 0-2, one condition per side drawn from every class/alias the side admits (value, "
@@ -65,6 +68,7 @@ ASSUMPTIONS = [
     "an infinite Robin coefficient is judged by the limit form of the condition (boundary value 0), as documented for MixedBC",
 ]
 TRUSTED_EXTRA = ["sympy/numba expression compilation for *_expression conditions is external (validated only)"]
+EXTRA_PROP_FILES = ["C02b"]  # the complete setter of a grid (faces generated from the grid); linked values
 MIN_LEGS = {"ghost": 300, "parse": 500, "linked": 20, "reject": 10}
 
 KINDS_LOCAL = ["dirichlet", "neumann", "mixed", "curvature"]
@@ -1219,6 +1223,12 @@ def run(ctx):
         st, val = answers[ri]
         if st != "ok":
             return None, val, None
+        # "grid": the request listed every face of the grid in setter order and was evaluated through
+        # `setBoundaries` (the definition the composed theorems of Props/C02b are about)
+        ctx.hist("model definition", "setBoundaries" if val.get("grid") else "setGhostAll (incomplete face list)")
+        if not val.get("grid"):
+            ctx.disagree("ghost:model-definition", {"request": ri}, "complete list of the grid's faces in setter order",
+                         "other", "the model request was not evaluated through setBoundaries")
         return [unq(x) for x in val["a"]], list(val["div0"]), list(val["sing"])
 
     def judge_ghost_case(ci, c, ri):
